@@ -639,3 +639,8 @@ def deep_nodes(m, fi):
         if id(helper) not in seen:
             seen.add(id(helper))
             yield from body_walk(helper.node)
+
+
+# every public helper of this module is available through `from sa.lib import *`
+__all__ = sorted(set(__all__) | {k for k, v in list(globals().items())
+                                 if not k.startswith('_') and getattr(v, '__module__', None) == __name__})
